@@ -41,9 +41,10 @@ enum
     O_ADVTO,
     O_SCAN,
     O_OBS,
+    O_REP,
     O_COUNT
 };
-const char* kOpName[] = {"ins", "insr", "era", "erar", "find", "finduc", "findr", "findrf", "clean", "age", "uttl", "clear", "adv", "advto", "scan", "obs"};
+const char* kOpName[] = {"ins", "insr", "era", "erar", "find", "finduc", "findr", "findrf", "clean", "age", "uttl", "clear", "adv", "advto", "scan", "obs", "rep"};
 const char* kKindName[] = {"lru", "mru", "fifo", "lfu", "lfuda", "rr", "tlru", "utlru", "ut_map", "ut_set"};
 
 struct GElem
@@ -65,6 +66,9 @@ struct GOp
     int                j{0};
     int                off{0};
     int                mode{0};
+    bool               same{false};
+    int                rep_m{1};
+    int                rep_n{2};
 };
 struct GCase
 {
@@ -79,6 +83,7 @@ struct GCase
     int              tick{5};
     int              ratio_idx{0};
     int              seed{1};
+    int              kmode{0};
     std::vector<GOp> ops;
 };
 
@@ -90,11 +95,14 @@ std::string to_text(const GCase& c)
 {
     std::ostringstream s;
     const bool         big = c.big && (c.kind == 8 || c.kind == 9); // large universes only for the unbounded containers
-    int                uni = big ? 70 + (c.seed % 80) : c.cap + c.extra;
-    const size_t       lim = (big || c.cap >= 16) ? 128 : 8; // long ranges only where they can matter
+    int                uni = big ? 70 + (c.seed % 230) : c.cap + c.extra;
+    const size_t       lim = big ? 320 : (c.cap >= 16 ? 128 : 8); // long ranges only where they can matter
     s << "kind " << kKindName[c.kind] << "\nsync " << (c.sync ? 1 : 0) << "\ntypes " << c.types << "\ncap " << c.cap << "\nuni " << uni << "\nmlf "
       << kMlf[c.mlf_idx] << "\nttl " << c.ttl << "\ntick " << c.tick << "\nratio " << kRatioN[c.ratio_idx] << " " << kRatioD[c.ratio_idx] << "\nseed "
-      << c.seed << "\n--\n";
+      << c.seed << "\n";
+    if (c.kmode)
+        s << "kmode " << c.kmode << "\n";
+    s << "--\n";
     for (auto& o : c.ops)
     {
         if (o.splice)
@@ -102,7 +110,8 @@ std::string to_text(const GCase& c)
         s << kOpName[o.code];
         switch (o.code)
         {
-            case O_INS: s << " " << o.k % uni << " " << o.allow << " " << o.ttl; break;
+            case O_INS: s << " " << o.k % uni << " " << o.allow << " " << o.ttl << (o.same ? " 1" : ""); break;
+            case O_REP: s << " " << o.rep_m << " " << o.rep_n; break;
             case O_INSR:
                 s << " " << o.allow << " " << o.flavour << " " << std::min(lim, o.elems.size());
                 for (size_t i = 0; i < o.elems.size() && i < lim; ++i)
@@ -152,10 +161,12 @@ std::vector<int> all_kinds() { return {0, 1, 2, 3, 4, 5, 6, 7, 8, 9}; }
 Profile make_profile(const std::string& name)
 {
     Profile p;
+    std::fill(p.w, p.w + O_COUNT, 0);
     p.kinds = all_kinds();
     //                 INS INSR ERA ERAR FIND FUC FR FRF CLEAN AGE UTTL CLEAR ADV ADVTO SCAN OBS
     int general[] = {34, 6, 10, 3, 10, 3, 4, 3, 2, 2, 1, 1, 6, 5, 2, 0};
     std::memcpy(p.w, general, sizeof general);
+    p.w[O_REP] = 1;
     p.ttls = {{2, 0}, {6, 1}, {8, 2}, {8, 3}, {10, 5}, {6, 8}, {6, 50}, {4, 1000}};
     p.caps = {{12, 1}, {20, 2}, {20, 3}, {14, 4}, {6, 5}, {4, 6}, {3, 7}, {3, 8}, {1, 16}, {1, 17}, {1, 33}, {1, 64}, {1, 100}};
     if (name == "general")
@@ -196,6 +207,7 @@ Profile make_profile(const std::string& name)
         std::memcpy(p.w, w, sizeof w);
         p.ttls   = {{1, 3}, {1, 8}, {6, 50}, {20, 1000}};
         p.w_peek = 35;
+        p.w[O_REP] = 2;
         return p;
     }
     if (name == "fifo") // C12
@@ -212,6 +224,7 @@ Profile make_profile(const std::string& name)
         std::memcpy(p.w, w, sizeof w);
         p.long_ticks = true;
         p.w_peek     = 35;
+        p.w[O_REP]   = 2;
         return p;
     }
     if (name == "lfuda") // C14
@@ -236,6 +249,15 @@ Profile make_profile(const std::string& name)
         int w[] = {30, 0, 35, 0, 25, 0, 0, 0, 0, 0, 0, 0, 0, 0, 0, 10};
         std::memcpy(p.w, w, sizeof w);
         p.caps = {{1, 2}, {1, 3}, {1, 4}, {1, 5}, {1, 6}, {1, 7}, {1, 8}};
+        return p;
+    }
+    if (name == "rrmass" || name == "rrmass_t") // C15 mass-survival: capacity class 300 / 5000 (/ 70000 in the thorough tier)
+    {
+        p.kinds = {5};
+        int w[] = {1, 0, 0, 0, 1, 0, 0, 0, 0, 0, 0, 0, 0, 0, 0, 0};
+        std::memcpy(p.w, w, sizeof w);
+        p.w[O_REP] = 0;
+        p.caps = name == "rrmass" ? std::vector<std::pair<std::size_t, int>>{{3, 3}, {1, 6}} : std::vector<std::pair<std::size_t, int>>{{1, 3}, {1, 6}, {2, 8}};
         return p;
     }
     if (name == "range") // C18
@@ -277,14 +299,15 @@ rc::Gen<int> uni_int(int lo, int hi) { return rc::gen::resize(100, rc::gen::inRa
 rc::Gen<GOp> gen_op(const Profile& p)
 {
     std::vector<std::pair<std::size_t, int>> codes;
+    // `rep` blocks are expensive (hundreds to tens of thousands of lookups): about one case in thirty gets one
     for (int i = 0; i < O_COUNT; ++i)
         if (p.w[i] > 0)
-            codes.emplace_back(static_cast<std::size_t>(p.w[i]), i);
+            codes.emplace_back(static_cast<std::size_t>(p.w[i]) * (i == O_REP ? 1 : 20), i);
     auto ttl   = weighted<int>(p.ttls);
     auto elem  = rc::gen::build<GElem>(rc::gen::set(&GElem::k, uni_int(0, 47)), rc::gen::set(&GElem::ttl, ttl));
     auto small = rc::gen::resize(8, rc::gen::container<std::vector<GElem>>(elem));
-    auto belem = rc::gen::build<GElem>(rc::gen::set(&GElem::k, uni_int(0, 159)), rc::gen::set(&GElem::ttl, ttl));
-    auto bulk  = rc::gen::resize(120, rc::gen::container<std::vector<GElem>>(belem));
+    auto belem = rc::gen::build<GElem>(rc::gen::set(&GElem::k, uni_int(0, 319)), rc::gen::set(&GElem::ttl, ttl));
+    auto bulk  = rc::gen::resize(300, rc::gen::container<std::vector<GElem>>(belem));
     auto elems = rc::gen::oneOf(small, small, small, small, small, bulk); // `bulk` is cut to 8 elements when printed unless the case is big
     std::vector<std::pair<std::size_t, long long>> dts = {{2, 0},        {2, 1},        {3, 999999},    {6, 1000000},  {3, 1000001}, {6, 2000000},
                                                           {6, 3000000},  {3, 2999999},  {6, 5000000},   {2, 4999999},  {2, 5000001}, {3, 8000000},
@@ -292,7 +315,7 @@ rc::Gen<GOp> gen_op(const Profile& p)
     return rc::gen::build<GOp>(
         rc::gen::set(&GOp::code, weighted<int>(codes)),
         rc::gen::set(&GOp::splice, rc::gen::map(uni_int(0, 99), [pct = p.splice_pct](int v) { return v < pct; })),
-        rc::gen::set(&GOp::k, uni_int(0, 159)),
+        rc::gen::set(&GOp::k, uni_int(0, 319)),
         rc::gen::set(&GOp::allow, weighted<int>({{6, 3}, {2, 1}, {2, 2}})),
         rc::gen::set(&GOp::ttl, ttl),
         rc::gen::set(&GOp::peek, rc::gen::map(uni_int(0, 99), [pct = p.w_peek](int v) { return v < pct; })),
@@ -301,7 +324,12 @@ rc::Gen<GOp> gen_op(const Profile& p)
         rc::gen::set(&GOp::dt, weighted<long long>(dts)),
         rc::gen::set(&GOp::j, uni_int(0, 7)),
         rc::gen::set(&GOp::off, weighted<int>({{3, 0}, {2, -1}, {2, 1}})),
-        rc::gen::set(&GOp::mode, rc::gen::map(uni_int(0, 99), [pct = p.w_scan2](int v) { return v < pct ? 2 : 1; })));
+        rc::gen::set(&GOp::mode, rc::gen::map(uni_int(0, 99), [pct = p.w_scan2](int v) { return v < pct ? 2 : 1; })),
+        rc::gen::set(&GOp::same, rc::gen::map(uni_int(0, 99), [](int v) { return v < 8; })),
+        rc::gen::set(&GOp::rep_m, uni_int(1, 3)),
+        rc::gen::set(&GOp::rep_n, std::getenv("VERIF_BIG_REPS")
+                                      ? weighted<int>({{4, 2}, {2, 3}, {2, 127}, {2, 128}, {3, 254}, {3, 255}, {3, 256}, {2, 257}, {2, 510}, {2, 65535}, {2, 65536}})
+                                      : weighted<int>({{6, 2}, {4, 3}, {2, 127}, {2, 128}, {3, 254}, {3, 255}, {3, 256}, {2, 257}, {2, 510}})));
 }
 
 rc::Gen<GCase> gen_case(const Profile& p, const std::vector<int>& kinds)
@@ -320,6 +348,7 @@ rc::Gen<GCase> gen_case(const Profile& p, const std::vector<int>& kinds)
         rc::gen::set(&GCase::tick, weighted<int>(ticks)),
         rc::gen::set(&GCase::ratio_idx, weighted<int>({{4, 0}, {1, 1}, {1, 2}, {2, 3}, {2, 4}, {1, 5}})),
         rc::gen::set(&GCase::seed, uni_int(1, 65535)),
+        rc::gen::set(&GCase::kmode, weighted<int>({{8, 0}, {1, 1}, {1, 2}})),
         rc::gen::set(&GCase::ops, rc::gen::container<std::vector<GOp>>(gen_op(p))));
 }
 
